@@ -10,6 +10,7 @@ EXPLANATION = (
     "pc = state.begin, which is unreachable unless iterations_left > 0 and is accompanied by iterations_left −= 1. R4 nesting: pushing a loop is unreachable when its end exceeds "
     "the enclosing loop's end. R5 length guards before materialisation: every CatVec→Vec conversion inside step is unreachable when the value's length exceeds its immediate/constant "
     "bound. R6 linear weighing: on the opcodes_weight ↔ opcodes_car_weight recursion the slice weighed recursively must be disjoint from the remainder handed back."
+    " R5 also requires the guarding length test to be made on the full-width length (`.../reduced`: a test on `len as u16` or on a saturated length lets longer strings through at the price of the bound)."
 )
 NOT_DECIDED = ["the inequality executed steps ≤ weight as arithmetic over all programs", "memory high-water marks of CatVec operations"]
 ASSUMPTIONS = ["catvec: append/slice are O(log n) structure sharing; conversion to Vec is O(n)"]
